@@ -107,6 +107,26 @@ def run(env, tier, seed, broken=None):
             '%s g(%s) { %s (%s i = 0; i < 2; i = i + 1) { %s %s + i; } %s (%s) { %s %s; } }\ng(7);\n' % (FUN, B, FOR, VAR, PRINT, B, IF, TRUE, PRINT, B),
             '%s h(%s) { %s = "local"; { %s = %s + "!"; } %s %s; }\nh(0);\n%s %s;\n' % (FUN, B, B, B, B, PRINT, B, PRINT, B),
         ]
+    # a name bound twice in one scope (a function declared over a variable or over an earlier function, a parameter spelt
+    # like its function, duplicate parameters): later assignments and reads see one and the same binding
+    extra += [
+        '%s h = "off";\n%s h() { %s 1; }\n%s h;\nh = 20;\n%s h;\nh = h + 1;\n%s h;\n' % (VAR, FUN, RETURN, PRINT, PRINT, PRINT),
+        '%s k() { %s 1; }\n%s k() { %s 2; }\n%s k();\nk = 3;\n%s k;\n{ k = k + 1; }\n%s k;\n' % (FUN, RETURN, FUN, RETURN, PRINT, PRINT, PRINT),
+        '%s f(f) { f = f + 5; %s f; { f = f * 2; } %s f; }\n%s f(1);\n%s f;\n' % (FUN, PRINT, RETURN, PRINT, PRINT),
+        '%s g(a, a) { a = a + 1; %s a; { a = a * 10; } %s a; }\n%s g(1, 2);\n' % (FUN, PRINT, RETURN, PRINT),
+        '{ %s w = 1; %s w() { } w = 7; %s w; { w = 8; } %s w; }\n' % (VAR, FUN, PRINT, PRINT),
+    ]
+    # many names in one scope (top level, block, function body, parameters): each declared, then assigned, then read
+    for where in ('top', 'block', 'fn', 'params'):
+        for count in (15, 16, 17, 18, 33, 70):
+            names = ['n%d' % j for j in range(count)]
+            decl = ''.join('%s %s = %d;\n' % (VAR, nm, j) for j, nm in enumerate(names))
+            use = ''.join('%s = %s + 100;\n' % (nm, nm) for nm in names[::3]) + '%s [%s];\n' % (PRINT, ', '.join(names)) + \
+                  '%s c = 0;\n%s (n1 < 300) { n1 = n1 + 99; c = c + 1; }\n%s [c, n1, n0, %s];\n' % (VAR, WHILE, PRINT, names[-1])
+            if where == 'top': extra.append(decl + use)
+            elif where == 'block': extra.append('{\n' + decl + use + '{ n2 = 5; %s n2; }\n%s n2;\n}\n' % (PRINT, PRINT))
+            elif where == 'fn': extra.append('%s big() {\n%s%s%s n0;\n}\n%s big();\n%s big();\n' % (FUN, decl, use, RETURN, PRINT, PRINT))
+            elif count <= 70: extra.append('%s many(%s) {\n%s%s n0;\n}\n%s many(%s);\n' % (FUN, ', '.join(names), use, RETURN, PRINT, ', '.join(str(j) for j in range(count))))
     # a closure reads an outer variable, then the enclosing block declares the same name: outside the property's domain
     # (static vs dynamic resolution), kept out of the generators on purpose
     for e in extra:
